@@ -85,7 +85,7 @@ class C05(Property):
     min_nontrivial = 20
 
     def _plan(self, ctx: Ctx):
-        n, k = (600, 10) if ctx.tier == "thorough" else (80, 3)
+        n, k = (600, 10) if ctx.tier == "thorough" else (60, 3)
         if ctx.mode == "search":
             n, k = n, 16
         return n, k
@@ -98,7 +98,7 @@ class C05(Property):
             if ctx.out_of_time():
                 ctx.extra["incomplete"] = True
                 break
-            feats = {"exec": 3} if rng.random() < 0.2 else ({"cart": 4, "gather": 6} if rng.random() < 0.25 else None)
+            feats = {"exec": 4} if rng.random() < 0.35 else ({"cart": 4, "gather": 6} if rng.random() < 0.25 else None)
             spec = wfgen.gen_spec(rng, size=rng.randint(2, 12), features=feats)
             seeds = [rng.randrange(1 << 30) for _ in range(k)]
             runs = wfcheck.run_schedules(spec, seeds, ctx.scratch, timeout=30.0)
